@@ -651,6 +651,9 @@ func init() {
 			for _, tls := range []string{"none", "auto"} {
 				out = append(out, pairRaceSpecs("C08", P("tls", tls), tier, seed, 0, nil)...)
 			}
+			for _, st := range []string{"h", "p"} {
+				out = append(out, sp("C08", "fixed-stale-dialler/"+st, seed, P("fixed", "1", "tls", "none", "dir", "h", "ord", "a", "gap", "0", "stale", st)))
+			}
 			for _, tls := range []string{"none", "auto"} {
 				for _, dir := range []string{"h", "p"} {
 					for _, ord := range []string{"a", "d"} {
@@ -901,6 +904,87 @@ func runC08(r *h.Run) {
 		po := r.DoNoHang("Ping(after-reuse)", 60*time.Second, rctx, func() (any, error) { return nil, s.cp.Ping() })
 		if po.Err != nil && !noisy() {
 			r.Violate("main-conn-lost", rctx, fmt.Sprintf("ping after ID re-use failed: %v", po.Err))
+		}
+	}
+	// a dialler that keeps its connection object while the accepting side stops
+	// its server: gRPC re-dials by itself (a knock every ~6 s for an ID nobody
+	// listens on any more); later establishments must not suffer
+	if c.TLS != "auto" && lateMark == "" && !noisy() && (r.Spec.P("stale", "") != "" || (r.Spec.P("fixed", "") != "1" && w.Range("stale/on", 4) == 0)) {
+		hostAccepts := r.Spec.P("stale", "") == "h" || (r.Spec.P("stale", "") == "" && w.Range("stale/dir", 2) == 0)
+		sid := uint32(1600)
+		sctx := fmt.Sprintf("broker=grpcmux stale-dialler accept-side=%s", map[bool]string{true: "host", false: "plugin"}[hostAccepts])
+		var stop func()
+		okSetup := true
+		if hostAccepts {
+			st, err := h.HostAcceptOwn(s.cmd, sid)
+			if err != nil {
+				okSetup = false
+			}
+			stop = st
+		} else if _, err := s.cmd.Do("acceptown", fmt.Sprint(sid)); err != nil {
+			okSetup = false
+		} else {
+			stop = func() { s.cmd.Do("stopown", fmt.Sprint(sid)) }
+		}
+		var keep interface{ Close() error }
+		if okSetup {
+			o := r.Do(fmt.Sprintf("KeepDial(%d)", sid), 60*time.Second, func() (any, error) {
+				if hostAccepts {
+					return s.cmd.Do("dialkeep", fmt.Sprint(sid))
+				}
+				conn, err := gc.Broker.Dial(sid)
+				if err != nil {
+					return "", err
+				}
+				keep = conn
+				return plugins.PingConn(conn, 20*time.Second)
+			})
+			okSetup = !o.Hung && o.Err == nil
+		}
+		if okSetup {
+			w.Probe("mux.stale-dialler")
+			r.Do(fmt.Sprintf("StopOwnServer(%d)", sid), 30*time.Second, func() (any, error) { stop(); return nil, nil })
+			// a call on the kept connection: gRPC re-dials for it, again and again
+			// (knock, 5 s without an answer, back-off, knock ...), until the call gives up
+			for i := 0; i < 3; i++ {
+				r.Do(fmt.Sprintf("CallOnStale(%d)#%d", sid, i), 60*time.Second, func() (any, error) {
+					if keep != nil {
+						return plugins.PingConn(keep.(plugins.GRPCConn), 14*time.Second)
+					}
+					return s.cmd.Do("reping", fmt.Sprint(sid))
+				})
+				time.Sleep(1500 * time.Millisecond)
+			}
+			for _, hd := range []bool{true, false} {
+				fid := sid + 10 + uint32(b2i(hd))
+				if hd {
+					s.cmd.Do("accept", fmt.Sprint(fid))
+				} else {
+					h.HostAccept(r, s.cmd, fid)
+				}
+				o := r.Do(fmt.Sprintf("FreshDial(%d)", fid), 60*time.Second, func() (any, error) {
+					if hd {
+						return h.HostDialPing(s.cmd, fid)
+					}
+					return s.cmd.Do("dial", fmt.Sprint(fid))
+				})
+				dctx := sctx + " later-establishment=" + map[bool]string{true: "host->plugin", false: "plugin->host"}[hd]
+				switch {
+				case o.Hung:
+					r.Violate("hang", "op=Dial "+dctx, "dial never returned")
+				case o.Err != nil:
+					if !noisy() {
+						r.Violate("lost-pair", dctx, fmt.Sprintf("an establishment issued after a dialler kept re-dialling a closed listener failed: %v", o.Err))
+					}
+				case o.Val.(string) != fmt.Sprintf("id=%d", fid):
+					r.Violate("misroute", dctx, fmt.Sprintf("id %d answered by %q", fid, o.Val))
+				}
+			}
+			if keep != nil {
+				keep.Close()
+			} else {
+				s.cmd.Do("closekept", fmt.Sprint(sid))
+			}
 		}
 	}
 	s.kill()
